@@ -282,8 +282,25 @@ fn yuv_source_checks<T: Pixel>(ctx: &Ctx, idx: u64, w: usize, h: usize, ss: (u8,
 fn float_checks(ctx: &Ctx, idx: u64, w: usize, h: usize, cnt: &Counters) {
     let mut rng = Rng::new(ctx.seed, 0x0C11_F000 + idx);
     let n = w * h;
-    // distinct floats per pixel
-    let px: Vec<[f32; 3]> = (0..n).map(|i| [((i as f32) + rng.unit() as f32) / (n as f32 + 1.0), rng.unit() as f32, (rng.unit() * 0.98 + 0.01) as f32]).collect();
+    // distinct floats per pixel ...
+    let mut px: Vec<[f32; 3]> = (0..n).map(|i| [((i as f32) + rng.unit() as f32) / (n as f32 + 1.0), rng.unit() as f32, (rng.unit() * 0.98 + 0.01) as f32]).collect();
+    // ... except that every second image carries runs of *related* neighbours (equal pixels, permuted or repeated
+    // components, components taken from the predecessor), so that state carried from one pixel to the next is observable
+    if idx % 2 == 1 {
+        for i in 1..n {
+            let q = px[i - 1];
+            px[i] = match (i + idx as usize) % 9 {
+                0 => q,
+                1 => [q[0], q[1], q[1]],
+                2 => [q[0], q[0], q[2]],
+                3 => [q[1], q[2], q[0]],
+                4 => [q[0], q[1], q[0]],
+                5 => [q[0], q[2], q[2]],
+                6 => [q[2], q[1], q[0]],
+                _ => px[i],
+            };
+        }
+    }
     let t = TRANSFERS[(idx % 14) as usize];
     let p = PRIMARIES[((idx / 3) % 11) as usize];
     let case = || J::obj().set("kind", "c11-float").set("w", w).set("h", h).set("transfer", format!("{t:?}")).set("primaries", format!("{p:?}")).set("seed", ctx.seed).set("index", idx);
@@ -293,6 +310,9 @@ fn float_checks(ctx: &Ctx, idx: u64, w: usize, h: usize, cnt: &Counters) {
         ("Xyb::try_from(Rgb)", Box::new(move |d, w, h| Xyb::try_from(Rgb::new(d, w, h, t, p).ok()?).ok().map(|o| (o.data().to_vec(), o.width(), o.height())))),
         ("Rgb::try_from((LinearRgb,t,p))", Box::new(move |d, w, h| Rgb::try_from((LinearRgb::new(d, w, h).ok()?, t, p)).ok().map(|o| (o.data().to_vec(), o.width(), o.height())))),
         ("Rgb::try_from((Xyb,t,p))", Box::new(move |d, w, h| Rgb::try_from((Xyb::new(d, w, h).ok()?, t, p)).ok().map(|o| (o.data().to_vec(), o.width(), o.height())))),
+        // Unspecified metadata is resolved (sRGB / BT.709) on every call, not only on the first one
+        ("Rgb::try_from((LinearRgb,Unspecified,Unspecified))", Box::new(|d, w, h| Rgb::try_from((LinearRgb::new(d, w, h).ok()?, TC::Unspecified, CP::Unspecified)).ok().map(|o| (o.data().to_vec(), o.width(), o.height())))),
+        ("Rgb::try_from((Xyb,Unspecified,p))", Box::new(move |d, w, h| Rgb::try_from((Xyb::new(d, w, h).ok()?, TC::Unspecified, p)).ok().map(|o| (o.data().to_vec(), o.width(), o.height())))),
         ("Xyb::from(LinearRgb)", Box::new(|d, w, h| Some(Xyb::from(LinearRgb::new(d, w, h).ok()?)).map(|o| (o.data().to_vec(), o.width(), o.height())))),
         ("LinearRgb::from(Xyb)", Box::new(|d, w, h| Some(LinearRgb::from(Xyb::new(d, w, h).ok()?)).map(|o| (o.data().to_vec(), o.width(), o.height())))),
         ("Hsl::from(LinearRgb)", Box::new(|d, w, h| Some(Hsl::from(LinearRgb::new(d, w, h).ok()?)).map(|o| (o.data().to_vec(), o.width(), o.height())))),
